@@ -22,6 +22,19 @@ def tree_hash(profile):
     h.update(profile.encode())
     return h.hexdigest()[:20]
 
+def conditional_sources():
+    """files of /repo's src that use conditional compilation other than `cfg(test)` / `cfg(not(test))` (a trigger for the extra release-profile
+    pass, never a verdict): the analysed program is the one the selected configuration compiles, so profile-dependent code needs both profiles"""
+    import re
+    pat = re.compile(r'debug_assertions|overflow_checks|cfg!\s*\(|cfg_attr\s*\(|cfg\s*\((?!\s*(?:test|not\s*\(\s*test\s*\))\s*\))')
+    hits = []
+    for f in sorted(glob.glob(os.path.join(REPO, 'src', '**', '*.rs'), recursive=True)):
+        try: txt = open(f, errors='replace').read()
+        except OSError: continue
+        n = len(pat.findall(txt))
+        if n: hits.append({'file': os.path.relpath(f, REPO), 'sites': n})
+    return hits
+
 def get_summary(profile='dev', use_cache=True, verbose=False, merge_bool=True):
     os.makedirs(CACHE, exist_ok=True)
     hh = tree_hash(profile + ('' if merge_bool else '-nomerge'))
@@ -74,7 +87,11 @@ def main():
     mod = importlib.import_module(prop.lower())
     info = mod.run(eng, tier) or {}
     extra = {}
-    if tier == 'thorough':
+    # conditional compilation other than cfg(test): the unit tests run under the dev profile only, the deployed artefact is a release build.
+    # If the source mentions any cfg predicate / cfg! macro beyond `test`, the release-profile pass is run at the quick tier too.
+    cond = conditional_sources()
+    extra['conditional_compilation_sites'] = cond
+    if tier == 'thorough' or cond:
         # second extraction under the release profile's flags: verdicts must coincide
         summ2, meta2 = get_summary('release', use_cache=False, verbose=a.verbose)
         eng2 = engine.Engine(summ2)
@@ -86,6 +103,7 @@ def main():
             for v in eng2.violations:
                 if (v.rule, v.key) not in set(k1):
                     v.msg = '[release profile only] ' + v.msg; eng.violations.append(v)
+    if tier == 'thorough':
         if getattr(mod, 'THOROUGH_UNMERGED', False):
             # third pass: helper outcomes NOT merged (every marker-query outcome is its own path); verdicts must coincide
             summ3, meta3 = get_summary('dev', use_cache=False, verbose=a.verbose, merge_bool=False)
